@@ -289,7 +289,9 @@ func runProg(p *prog) result {
 				if o.WhileToFor {
 					want = p.canonw
 				}
-				if p.kind != "accept" || s != want {
+				if p.kind == "parses" {
+					// a program known to be derivable whose tree is not prescribed here: only acceptance is judged
+				} else if p.kind != "accept" || s != want {
 					res.mismatch = true
 				}
 			} else {
@@ -297,7 +299,7 @@ func runProg(p *prog) result {
 				if err != nil {
 					ev["etext"] = strings.SplitN(err.Error(), "\n", 2)[0]
 				}
-				if p.kind == "accept" {
+				if p.kind == "accept" || p.kind == "parses" {
 					res.mismatch = true
 				}
 			}
